@@ -7,6 +7,7 @@
      D.<c>        disconnect      T.<d>   d ms pass
      R.<c>.<serial>.<name>.<flags>   RequestName (bit0 allow_replacement, bit1 replace_existing, bit2 do_not_queue)
      L.<c>.<serial>.<name>           ReleaseName
+     G.<c>.<serial>   some other driver method (GetId / NameHasOwner)
      H.<c>   c's socket is closed and the bus's transport has seen EOF; D.<c> (Disconnected processed) follows later
      B.<c>   c stops reading and its queue at the bus is driven over max_outgoing_bytes      U.<c>   c reads again
      M.<c>.<serial>.<eavesdrop 0|1>.<type c|r|e|s|x>.<sender u<k>|n<k>|x>.<destination u<k>|n<k>|x>   AddMatch
@@ -44,6 +45,7 @@ let parse_event (tok : string) : event =
   | ["B"; c] -> EBlock (ni c)
   | ["U"; c] -> EDrain (ni c)
   | ["H"; c] -> EHangup (ni c)
+  | ["G"; c; s] -> EDriverCall (ni c, ni s)
   | ["M"; c; s; ev; ty; sd; ds] ->
       let od x = if x = "x" then None else
         let k = ni (String.sub x 1 (String.length x - 1)) in
@@ -67,7 +69,8 @@ let show_out (o : (n * omsg) list) : string =
     (match m with
      | OFwd (f, m) | OEav (f, m) -> Printf.sprintf "F.%d.%d" (int_of_n f) (int_of_n m.m_token)
      | OErr (e, rs) -> Printf.sprintf "E.%s.%d" (err_name e) (int_of_n rs)
-     | ODrv (rs, code) -> Printf.sprintf "D.%d.%d" (int_of_n rs) (int_of_n code))) o)
+     | ODrv (rs, code) -> Printf.sprintf "D.%d.%d" (int_of_n rs) (int_of_n code)
+     | OCall (f, sr) -> Printf.sprintf "C.%d.%d" (int_of_n f) (int_of_n sr))) o)
 
 let parse_cfg r l t : cfg =
   { restrictive = b r; max_replies = ni l; reply_timeout = (let t = int_of_string t in if t < 0 then None else Some (n_of_int t)) }
@@ -109,6 +112,7 @@ let parse_out (sent : (int, msg) Hashtbl.t) (tok : string) : (n * omsg) list opt
              (ni r, OFwd (ni f, m))
          | ["E"; e; rs] -> (ni r, OErr (err_of_name e, ni rs))
          | ["D"; rs; c] -> (ni r, ODrv (ni rs, ni c))
+         | ["C"; f; sr] -> (ni r, OCall (ni f, ni sr))
          | _ -> failwith "out")
     | _ -> failwith "out") (String.split_on_char '+' tok))
   with _ -> None
@@ -138,7 +142,11 @@ let run_oracle (args : string list) : string =
                                                    | DUnique _ -> false)
                           | _ -> false) in
             let held = (match e with ERequestName (_, _, n, _, _, _) -> held_for !st.st_held n | _ -> []) in
-            let eaves = (match e, owner with ESend (c, m), Some w -> eavesdroppers !st c w m | _ -> []) in
+            let eaves = (match e, owner with
+                         | ESend (c, m), Some w -> eavesdroppers !st c w m
+                         | (ERequestName (c, _, _, _, _, _) | EReleaseName (c, _, _) | EAddMatch (c, _, _) | EDriverCall (c, _)), _ ->
+                             drv_eavesdroppers (fst (step cf !st e)) c          (* rules and names as they are after the driver handled the call *)
+                         | _ -> []) in
             let res = (match parse_out sent otok with
                        | None -> "9"
                        | Some o ->
